@@ -115,8 +115,11 @@ def check_pkesk_selection(rep, prog, rid):
             rep.violation(rid, 'PGPKey.decrypt', 'no decrypt_sk call', 'the key never recovers a session key', where=fi.where)
             continue
         t = dsk[0][0][:-len('.decrypt_sk')]
-        conj = all(x in t for x in ('message._sessionkeys', 'isinstance(pk, PKESessionKey)', 'pk.encrypter == self.fingerprint.keyid',
-                                    'pk.pkalg == self.key_algorithm'))
+        _m = re.search(r'for (\w+) in message\._sessionkeys', t)
+        _v = _m.group(1) if _m else 'pk'
+        conj = all(x in t.replace(' ', '') for x in ('message._sessionkeys', 'isinstance(%s,PKESessionKey)' % _v,
+                                                     '%s.pkalg==self.key_algorithm' % _v)) and \
+            any(x in t.replace(' ', '') for x in ('%s.encrypter==self.fingerprint.keyid' % _v, 'self.fingerprint.keyid==%s.encrypter' % _v))
         rep.check(conj, rid, 'PGPKey.decrypt', 'session-key packet selection %s' % t[:140],
                   'with several recipients the packet used must be the one addressed to this key id (and algorithm)', where=fi.where,
                   expected='isinstance(pk, PKESessionKey) and pk.pkalg == self.key_algorithm and pk.encrypter == self.fingerprint.keyid',
